@@ -14,7 +14,7 @@ while read -r id name class; do
   [ -z "$id" ] && continue
   if [ ! -d "$OUT/$id" ]; then
     mkdir -p "$OUT/$id"
-    VERIF_OUT="$OUT/$id" VERIF_REPO="$WT" ./run.sh "$id" quick > "$OUT/$id/log" 2>&1
+    VERIF_RUN_TIMEOUT_S=8 VERIF_OUT="$OUT/$id" VERIF_REPO="$WT" ./run.sh "$id" quick > "$OUT/$id/log" 2>&1
   fi
   f=$(grep -l "\"class\": \"$class" "$OUT/$id"/replays/*.json 2>/dev/null | head -1)
   if [ -z "$f" ]; then echo "NOT REPRODUCED: $id $class (see $OUT/$id/log)"; cat "$OUT/$id/log" | tail -5; trap - EXIT; exit 1; fi
@@ -28,4 +28,6 @@ C13 child-fanout-mismatch-name-strip-panic c13/panic@hamt.stringTransformer.tran
 C16 symlink-link-with-commit-error c16/link-returned-with-error@BuildUnixFSSymlink
 C16 empty-file-link-with-commit-error c16/link-returned-with-error@BuildUnixFSFile
 C17 race-cachedLength-shardCache c17/data-race@hamt.
+C05 node-reifier-double-wrap-overfetch c05/file/over-fetch
+C20 node-reifier-preload-noop c20/block-set-mismatch/dir
 TABLE
